@@ -763,7 +763,9 @@ func (g *decGen) cla(name string) *v3endpointpb.ClusterLoadAssignment {
 
 func (g *decGen) cluster(name string) *v3clusterpb.Cluster {
 	c := &v3clusterpb.Cluster{Name: name}
-	switch g.r.intn(6) {
+	switch g.r.intn(7) {
+	case 6: // enum numbers the code does not know (a protobuf enum is an open int32)
+		c.ClusterDiscoveryType = &v3clusterpb.Cluster_Type{Type: v3clusterpb.Cluster_DiscoveryType([]int32{-1, 7, 1 << 30}[g.r.intn(3)])}
 	case 0:
 		c.ClusterDiscoveryType = &v3clusterpb.Cluster_Type{Type: v3clusterpb.Cluster_STATIC}
 	case 1:
@@ -775,7 +777,7 @@ func (g *decGen) cluster(name string) *v3clusterpb.Cluster {
 	case 4:
 		c.ClusterDiscoveryType = &v3clusterpb.Cluster_Type{Type: v3clusterpb.Cluster_EDS}
 	}
-	c.LbPolicy = []v3clusterpb.Cluster_LbPolicy{v3clusterpb.Cluster_ROUND_ROBIN, v3clusterpb.Cluster_RING_HASH, v3clusterpb.Cluster_LEAST_REQUEST, v3clusterpb.Cluster_RANDOM, v3clusterpb.Cluster_MAGLEV}[g.r.intn(5)]
+	c.LbPolicy = []v3clusterpb.Cluster_LbPolicy{v3clusterpb.Cluster_ROUND_ROBIN, v3clusterpb.Cluster_RING_HASH, v3clusterpb.Cluster_LEAST_REQUEST, v3clusterpb.Cluster_RANDOM, v3clusterpb.Cluster_MAGLEV, v3clusterpb.Cluster_LbPolicy(-2), v3clusterpb.Cluster_LbPolicy(99)}[g.r.intn(7)]
 	if g.r.chance(50) {
 		c.EdsClusterConfig = &v3clusterpb.Cluster_EdsClusterConfig{ServiceName: g.r.pick([]string{"svc-eds", ""})}
 	}
